@@ -167,6 +167,21 @@ theorem isFail_hook (K : Kind) (hK : K ≠ .enterFlow) (e : OutEdge) :
 
 theorem bool_false_of_not {b : Bool} (h : ¬ b = true) : b = false := by cases b <;> simp_all
 
+/-! #### `split_random` rows -/
+
+/-- a `split_random` row: one node with a random router; its categories are the buckets of the
+leaving edges, in order of first appearance, each leading where its last edge leads -/
+structure RandSim (M : Maps) (ns : Array NodeM) (n : NodeM) (c : CRow) (es : List OutEdge) (r : RandomR) : Prop where
+  kind : n.kind = NodeKind.random
+  acts : n.actions = []
+  router : n.router = some (.rnd r)
+  rname : r.resultName = some c.row.saveName
+  uids : (r.cats.map (·.uid)).Nodup
+  names : (r.cats.map (·.name)).Nodup
+  rel : List.Forall₂ (fun (cat : Cat) (b : Str × Target) => DestIs M ns cat.dest (some b.2) ∧ NameRel cat.name b.1)
+    r.cats (bucketsOf es).1
+  gen : ∀ cat ∈ r.cats, ∀ k, cat.name = "Bucket ".toList ++ Compile.natStr k → k < r.cats.length + 2
+
 def isFixedKind (K : Kind) : Prop := K = .enterFlow ∨ K = .webhook ∨ K = .airtime
 
 inductive NodeSim (M : Maps) (ns : Array NodeM) (n : NodeM) (c : CRow) (es : List OutEdge) : Prop
@@ -174,6 +189,7 @@ inductive NodeSim (M : Maps) (ns : Array NodeM) (n : NodeM) (c : CRow) (es : Lis
   | sw (r : SwitchR) : (kindOf c.row.type = .wait ∨ kindOf c.row.type = .splitValue ∨ kindOf c.row.type = .splitGroup) →
       SwitchSim M ns n c es r → NodeSim M ns n c es
   | fix (r : SwitchR) (sc : Cat) : isFixedKind (kindOf c.row.type) → FixSim M ns n c es r sc → NodeSim M ns n c es
+  | rnd (r : RandomR) : kindOf c.row.type = .splitRandom → RandSim M ns n c es r → NodeSim M ns n c es
 
 theorem NodeSim.ext {M : Maps} {ns ns' : Array NodeM} (h : NExt ns ns') {n : NodeM} {c : CRow} {es : List OutEdge}
     (hs : NodeSim M ns n c es) : NodeSim M ns' n c es := by
@@ -186,6 +202,14 @@ theorem NodeSim.ext {M : Maps} {ns ns' : Array NodeM} (h : NExt ns ns') {n : Nod
   | fix r sc hk hp =>
     exact .fix r sc hk ⟨hp.kind, hp.acts, hp.router, hp.operand, hp.rname, hp.wait, hp.noResp, hp.cats, hp.sname,
       hp.uidne, hp.cases, hp.succ.ext h, hp.dflt.ext h⟩
+  | rnd r hk hp =>
+    exact .rnd r hk ⟨hp.kind, hp.acts, hp.router, hp.rname, hp.uids, hp.names,
+      hp.rel.imp (fun _ _ hd => ⟨hd.1.ext h, hd.2⟩), hp.gen⟩
+
+/-- the category identifiers of the random routers in the arena were drawn from the counter -/
+def RFresh (nodes : Array NodeM) (next : Nat) : Prop :=
+  ∀ (i : Nat) (n : NodeM) (r : RandomR), nodes[i]? = some n → n.router = some (RouterM.rnd r) →
+    ∀ cat ∈ r.cats, ∃ k, k < next ∧ cat.uid = tid k
 
 /-- row `j` has been parsed (or is the row being parsed, its node pending) and produces a node -/
 def Valid (rows : List CRow) (pd : Bool) (kg j : Nat) (c : CRow) : Prop :=
@@ -209,6 +233,7 @@ structure Rel (rows : List CRow) (M : Maps) (pd : Bool) (kg : Nat) (s : St) (st 
   args : s.noArgs = RefFlow.noArgsTests
   node : ∀ j c, Valid rows pd kg j c → ∃ n : NodeM, s.nodes[M.nOf j]? = some n ∧ NodeSim M s.nodes n c (outOf st j)
   inj : ∀ j c j' c', Valid rows pd kg j c → Valid rows pd kg j' c' → M.nOf j = M.nOf j' → j = j'
+  rfresh : RFresh s.nodes s.next
   noR : ∀ j, M.rOf j = none
 
 /-- the node of row `j` is replaced (same identifier) by one that accounts for the new out-edge -/
@@ -220,7 +245,10 @@ theorem Rel.update {rows : List CRow} {M : Maps} {pd : Bool} {kg : Nat} {s s' : 
     (hn' : s'.nodes[M.nOf j]? = some n') (hoth : ∀ i, i ≠ M.nOf j → s'.nodes[i]? = s.nodes[i]?)
     (hg : s'.groups = s.groups) (hst : s'.stack = s.stack)
     (hri : s'.rowIds = s.rowIds) (hna : s'.noArgs = s.noArgs)
-    (hsim : NodeSim M s'.nodes n' c (outOf st j ++ [new])) :
+    (hsim : NodeSim M s'.nodes n' c (outOf st j ++ [new]))
+    (hnx : s.next ≤ s'.next := by first | exact Nat.le_refl _ | exact Nat.le_add_right _ _)
+    (hfr : ∀ r, n'.router = some (.rnd r) → ∀ cat ∈ r.cats, ∃ k, k < s'.next ∧ cat.uid = tid k := by
+      intro r hr; cases hr) :
     Rel rows M pd kg s' { st with out := new :: st.out } ∧ NExt s.nodes s'.nodes := by
   have hext : NExt s.nodes s'.nodes := by
     intro i m hm
@@ -229,7 +257,7 @@ theorem Rel.update {rows : List CRow} {M : Maps} {pd : Bool} {kg : Nat} {s s' : 
     · exact ⟨m, by rw [hoth i hij]; exact hm, rfl⟩
   refine ⟨⟨by rw [hg]; exact h.gsize, by rw [hg]; exact h.root,
     by rw [hg]; exact h.grp, by rw [hst]; exact h.stack, by rw [hri]; exact h.ids, h.idok, h.prev, ?_, ?_,
-    by rw [hna]; exact h.args, ?_, h.inj, h.noR⟩, hext⟩
+    by rw [hna]; exact h.args, ?_, h.inj, ?_, h.noR⟩, hext⟩
   · intro o ho
     simp only [List.mem_cons] at ho
     rcases ho with rfl | ho
@@ -254,6 +282,15 @@ theorem Rel.update {rows : List CRow} {M : Maps} {pd : Bool} {kg : Nat} {s s' : 
       refine ⟨m, by rw [hoth _ hne]; exact hm, ?_⟩
       rw [outOf_cons_other st new j' (fun e1 => hjj (by rw [← e1, hsrc]))]
       exact hp'.ext hext
+  · unfold RFresh
+    intro i m r hm hr cat hcat
+    by_cases hij : i = M.nOf j
+    · subst hij
+      rw [hn'] at hm; injection hm with hm; subst hm
+      exact hfr r hr cat hcat
+    · rw [hoth i hij] at hm
+      obtain ⟨k, hk, e⟩ := h.rfresh i m r hm hr cat hcat
+      exact ⟨k, by omega, e⟩
 
 theorem lookup_ids (rows : List CRow) (ids : List (Str × Nat)) (id : Str) :
     ((ids.map (fun p => (p.1, gOf rows p.2))).find? (·.1 = id)).map (·.2) = (lookupId ids id).map (gOf rows) := by
@@ -270,6 +307,31 @@ theorem mostRecent_root (gs : Array Grp) (m : Nat) (h : gs[0]? = some (.block (L
     have : (List.range' 1 (k + 1)).getLast? = some (k + 1) := by
       rw [List.range'_concat]; simp; omega
     simp [this]
+
+theorem eq_of_nodup_map {α β} (f : α → β) : ∀ (l : List α), (l.map f).Nodup → ∀ x ∈ l, ∀ y ∈ l, f x = f y → x = y := by
+  intro l
+  induction l with
+  | nil => intro _ x hx; cases hx
+  | cons a l ih =>
+    intro hnd x hx y hy e
+    rw [List.map_cons, List.nodup_cons] at hnd
+    simp only [List.mem_cons] at hx hy
+    rcases hx with rfl | hx <;> rcases hy with rfl | hy
+    · rfl
+    · exact absurd (e ▸ List.mem_map_of_mem hy) hnd.1
+    · exact absurd (e ▸ List.mem_map_of_mem hx) hnd.1
+    · exact ih hnd.2 x hx y hy e
+
+theorem uid_iff_name (l : List Cat) (hu : (l.map (·.uid)).Nodup) (hn : (l.map (·.name)).Nodup)
+    (c0 a : Cat) (hc0 : c0 ∈ l) (ha : a ∈ l) : a.uid = c0.uid ↔ a.name = c0.name := by
+  constructor
+  · intro e; rw [eq_of_nodup_map _ l hu a ha c0 hc0 e]
+  · intro e; rw [eq_of_nodup_map _ l hn a ha c0 hc0 e]
+
+theorem take7_bucket (x : Str) : ("Bucket ".toList ++ x).take 7 = "Bucket ".toList :=
+  List.take_left' (by decide)
+
+theorem head_hash (x : Str) : ("#".toList ++ x).head? = some '#' := rfl
 
 section
 variable (rows : List CRow) (M : Maps) (pd : Bool) (kg : Nat) (d : Dest) (tgt : Target) (cond : Compile.Cond) (s : St) (st : P1) (j : Nat)
@@ -301,6 +363,7 @@ theorem plain_edge_sim (hk : kindOf c.row.type = .action) (hp : PlainSim M s.nod
     NExt.set hn rfl
   refine Rel.update h (newEdge tgt cond j) rfl hj hn hc hnode (n' := { n with dexitUid := tid s.next, dexitDest := d })
     rfl htg (set_getElem?_self _ hn) (fun i hi => set_getElem?_other _ _ _ _ hi) rfl rfl rfl rfl ?_
+    (hfr := fun r hr => by have h2 : n.router = some (.rnd r) := hr; rw [hp.router] at h2; cases h2)
   refine .plain hk ⟨hp.kind, hp.router, hp.acts, ?_⟩
   rw [getLast?_append_singleton]
   exact hd.ext hext
@@ -372,6 +435,7 @@ theorem sw_nr_sim (r : SwitchR) (hk : kindOf c.row.type = .wait) (hp : SwitchSim
         obtain ⟨m, hm⟩ := hp.nrSome.mp (by simp [hnoresp])
         exact absurd hm (by intro hm; exact hnot nr m hnoresp hm)
     refine Rel.update h (newEdge tgt cond j) rfl hj hn hc hnode (n' := n) rfl htg hn (fun i _ => rfl) rfl rfl rfl rfl ?_
+      (hfr := fun r hr => by have h2 : n.router = some (.rnd r) := hr; rw [hp.router] at h2; cases h2)
     refine .sw r (.inl hk) ⟨hp.kind, hp.acts, hp.router, hp.operand, hp.rname, hp.wait, hp.nrSome, ?_, hp.casecat, ?_, ?_, ?_⟩
     · rw [htests]; exact hp.cases
     · rw [htests]; exact hp.catd
@@ -554,6 +618,222 @@ theorem fix_fail_sim (r : SwitchR) (sc : Cat) (hk : isFixedKind (kindOf c.row.ty
     rw [getLast?_append_singleton]
     exact hd.ext hext
 
+/-- an edge leaving a `split_random` row: a new bucket, or a new target for the bucket of that name -/
+theorem rand_edge_sim (r : RandomR) (hk : kindOf c.row.type = .splitRandom)
+    (hp : RandSim M s.nodes n c (outOf st j) r)
+    (hok : bucketNameOk (bucketName (toRCond cond)) = true) :
+    wp (rowExitCond (gOf rows j) [M.nOf j] c.row.type (M.nOf j) n d cond) s (EdgePost rows M pd kg tgt cond s st j) := by
+  unfold rowExitCond
+  have hnb : n.kind ≠ NodeKind.basic := by rw [hp.kind]; intro hh; cases hh
+  simp only [hnb, if_false]
+  wp_simp
+  unfold nodeAddChoice
+  simp only [hp.router]
+  have hbn : (if cond.name.isEmpty = true then cond.value else cond.name) = bucketName (toRCond cond) := rfl
+  rw [hbn]
+  have hbk : bucketsOf (outOf st j ++ [newEdge tgt cond j]) = bstep (bucketsOf (outOf st j)) (newEdge tgt cond j) :=
+    bucketsOf_append _ _
+  generalize hnm0 : bucketName (toRCond cond) = nm0 at hok ⊢
+  have hbc : bucketName (newEdge tgt cond j).cond = nm0 := hnm0
+  have hfresh := h.rfresh (M.nOf j) n r hn hp.router
+  unfold randomAddChoice
+  by_cases hemp : nm0 = []
+  · -- an unnamed bucket
+    subst hemp
+    simp only [List.isEmpty_nil, if_true]
+    have hnone : r.cats.find? (fun c => decide (c.name = "Bucket ".toList ++ Compile.natStr (r.cats.length + 2))) = none := by
+      rw [List.find?_eq_none]
+      intro c0 hc0 hh
+      have := hp.gen c0 hc0 _ (of_decide_eq_true hh)
+      omega
+    rw [hnone]
+    wp_simp [wp_mkCat, wp_setNode]
+    obtain ⟨nc, hnc⟩ : ∃ nc : Cat, nc = Cat.mk (tid s.next) ("Bucket ".toList ++ Compile.natStr (r.cats.length + 2))
+        (tid (s.next + 1)) d := ⟨_, rfl⟩
+    rw [← hnc]
+    have hext : NExt s.nodes (s.nodes.setIfInBounds (M.nOf j) { n with router := some (.rnd { r with cats := r.cats ++ [nc] }) }) :=
+      NExt.set hn rfl
+    refine Rel.update h (newEdge tgt cond j) rfl hj hn hc hnode
+      (n' := { n with router := some (.rnd { r with cats := r.cats ++ [nc] }) })
+      rfl htg (set_getElem?_self _ hn) (fun i hi => set_getElem?_other _ _ _ _ hi) rfl rfl rfl rfl ?_ (Nat.le_add_right _ _) ?_
+    · refine .rnd _ hk ⟨hp.kind, hp.acts, rfl, hp.rname, ?_, ?_, ?_, ?_⟩
+      · simp only [List.map_append, List.map_cons, List.map_nil]
+        refine List.nodup_append.mpr ⟨hp.uids, by simp, ?_⟩
+        intro u hu1 u2 hu2 hu3
+        simp only [List.mem_singleton] at hu2
+        rw [hu3] at hu1
+        obtain ⟨c0, hc0, e0⟩ := List.mem_map.mp hu1
+        obtain ⟨k0, hk0, e1⟩ := hfresh c0 hc0
+        rw [hu2] at e0; rw [hnc] at e0
+        rw [e1] at e0
+        have := tid_inj.mp e0
+        omega
+      · simp only [List.map_append, List.map_cons, List.map_nil]
+        refine List.nodup_append.mpr ⟨hp.names, by simp, ?_⟩
+        intro u hu1 u2 hu2 hu3
+        simp only [List.mem_singleton] at hu2
+        rw [hu3] at hu1
+        obtain ⟨c0, hc0, e0⟩ := List.mem_map.mp hu1
+        rw [hu2] at e0; rw [hnc] at e0
+        have := hp.gen c0 hc0 _ e0
+        omega
+      · rw [hbk]
+        unfold bstep
+        rw [hbc]
+        simp only [List.isEmpty_nil, if_true]
+        refine List.rel_append (hp.rel.imp (fun _ _ hd => ⟨hd.1.ext hext, hd.2⟩)) ?_
+        refine List.Forall₂.cons ⟨?_, .inr ⟨?_, head_hash _⟩⟩ List.Forall₂.nil
+        · have : nc.dest = d := by rw [hnc]
+          rw [this]; exact hd.ext hext
+        · have : nc.name = "Bucket ".toList ++ Compile.natStr (r.cats.length + 2) := by rw [hnc]
+          rw [this]; exact take7_bucket _
+      · intro cat hcat k0 hk0
+        simp only [List.mem_append, List.mem_singleton] at hcat
+        simp only [List.length_append, List.length_singleton]
+        rcases hcat with hcat | hcat
+        · have := hp.gen cat hcat k0 hk0; omega
+        · rw [hcat, hnc] at hk0
+          have := Compile.natStr_injective (List.append_cancel_left hk0)
+          omega
+    · intro r' hr' cat hcat
+      injection hr' with hr'; injection hr' with hr'; subst hr'
+      simp only [List.mem_append, List.mem_singleton] at hcat
+      rcases hcat with hcat | hcat
+      · obtain ⟨k0, hk0, e1⟩ := hfresh cat hcat
+        exact ⟨k0, by show k0 < s.next + 2; omega, e1⟩
+      · exact ⟨s.next, by show s.next < s.next + 2; omega, by rw [hcat, hnc]⟩
+  · -- a named bucket
+    have hemp' : nm0.isEmpty = false := by cases nm0 with | nil => exact absurd rfl hemp | cons _ _ => rfl
+    obtain ⟨hk1, hk2⟩ := bucketNameOk_spec hok hemp
+    simp only [hemp', Bool.false_eq_true, if_false]
+    have hany : r.cats.any (fun c => decide (c.name = nm0)) = (bucketsOf (outOf st j)).1.any (fun p => decide (p.1 = nm0)) := by
+      refine forall2_any_iff hp.rel ?_
+      intro a b hab
+      have := hab.2.eq_iff hk1 hk2
+      by_cases e : a.name = nm0
+      · simp [e, this.mp e]
+      · have e' : ¬ b.1 = nm0 := fun hh => e (this.mpr hh)
+        simp [e, e']
+    cases hfind : r.cats.find? (fun c => decide (c.name = nm0)) with
+    | none =>
+      have hnot : ∀ c0 ∈ r.cats, c0.name ≠ nm0 := by
+        intro c0 hc0
+        have := List.find?_eq_none.mp hfind c0 hc0
+        simpa using this
+      have hanyF : (bucketsOf (outOf st j)).1.any (fun p => decide (p.1 = nm0)) = false := by
+        rw [← hany]
+        rw [List.any_eq_false]
+        intro c0 hc0; simpa using hnot c0 hc0
+      wp_simp [wp_mkCat, wp_setNode]
+      obtain ⟨nc, hnc⟩ : ∃ nc : Cat, nc = { uid := tid s.next, name := nm0, exitUid := tid (s.next + 1), dest := d } := ⟨_, rfl⟩
+      rw [← hnc]
+      have hext : NExt s.nodes (s.nodes.setIfInBounds (M.nOf j) { n with router := some (.rnd { r with cats := r.cats ++ [nc] }) }) :=
+        NExt.set hn rfl
+      refine Rel.update h (newEdge tgt cond j) rfl hj hn hc hnode
+        (n' := { n with router := some (.rnd { r with cats := r.cats ++ [nc] }) })
+        rfl htg (set_getElem?_self _ hn) (fun i hi => set_getElem?_other _ _ _ _ hi) rfl rfl rfl rfl ?_ (Nat.le_add_right _ _) ?_
+      · refine .rnd _ hk ⟨hp.kind, hp.acts, rfl, hp.rname, ?_, ?_, ?_, ?_⟩
+        · simp only [List.map_append, List.map_cons, List.map_nil]
+          refine List.nodup_append.mpr ⟨hp.uids, by simp, ?_⟩
+          intro u hu1 u2 hu2 hu3
+          simp only [List.mem_singleton] at hu2
+          rw [hu3] at hu1
+          obtain ⟨c0, hc0, e0⟩ := List.mem_map.mp hu1
+          obtain ⟨k0, hk0, e1⟩ := hfresh c0 hc0
+          rw [hu2] at e0; rw [hnc] at e0
+          rw [e1] at e0
+          have := tid_inj.mp e0
+          omega
+        · simp only [List.map_append, List.map_cons, List.map_nil]
+          refine List.nodup_append.mpr ⟨hp.names, by simp, ?_⟩
+          intro u hu1 u2 hu2 hu3
+          simp only [List.mem_singleton] at hu2
+          rw [hu3] at hu1
+          obtain ⟨c0, hc0, e0⟩ := List.mem_map.mp hu1
+          rw [hu2] at e0; rw [hnc] at e0
+          exact hnot c0 hc0 e0
+        · rw [hbk]
+          unfold bstep
+          rw [hbc]
+          simp only [hemp', Bool.false_eq_true, if_false, hanyF]
+          refine List.rel_append (hp.rel.imp (fun _ _ hd => ⟨hd.1.ext hext, hd.2⟩)) ?_
+          refine List.Forall₂.cons ⟨?_, .inl ⟨?_, hemp, hk1, hk2⟩⟩ List.Forall₂.nil
+          · have : nc.dest = d := by rw [hnc]
+            rw [this]; exact hd.ext hext
+          · rw [hnc]
+        · intro cat hcat k0 hk0
+          simp only [List.mem_append, List.mem_singleton] at hcat
+          simp only [List.length_append, List.length_singleton]
+          rcases hcat with hcat | hcat
+          · have := hp.gen cat hcat k0 hk0; omega
+          · rw [hcat, hnc] at hk0
+            exfalso
+            apply hk1
+            have : nm0 = "Bucket ".toList ++ Compile.natStr k0 := hk0
+            rw [this]; exact take7_bucket _
+      · intro r' hr' cat hcat
+        injection hr' with hr'; injection hr' with hr'; subst hr'
+        simp only [List.mem_append, List.mem_singleton] at hcat
+        rcases hcat with hcat | hcat
+        · obtain ⟨k0, hk0, e1⟩ := hfresh cat hcat
+          exact ⟨k0, by show k0 < s.next + 2; omega, e1⟩
+        · exact ⟨s.next, by show s.next < s.next + 2; omega, by rw [hcat, hnc]⟩
+    | some c0 =>
+      have hc0m : c0 ∈ r.cats := List.mem_of_find?_eq_some hfind
+      have hc0n : c0.name = nm0 := by simpa using List.find?_some hfind
+      have hanyT : (bucketsOf (outOf st j)).1.any (fun p => decide (p.1 = nm0)) = true := by
+        rw [← hany, List.any_eq_true]
+        exact ⟨c0, hc0m, by simp [hc0n]⟩
+      wp_simp [wp_setNode]
+      obtain ⟨f, hf⟩ : ∃ f : Cat → Cat, f = fun c' => if c'.uid = c0.uid then { c' with dest := d } else c' := ⟨_, rfl⟩
+      rw [← hf]
+      have hfu : ∀ a, (f a).uid = a.uid := by intro a; rw [hf]; simp only; split <;> rfl
+      have hfn : ∀ a, (f a).name = a.name := by intro a; rw [hf]; simp only; split <;> rfl
+      have hext : NExt s.nodes (s.nodes.setIfInBounds (M.nOf j) { n with router := some (.rnd { r with cats := r.cats.map f }) }) :=
+        NExt.set hn rfl
+      refine Rel.update h (newEdge tgt cond j) rfl hj hn hc hnode
+        (n' := { n with router := some (.rnd { r with cats := r.cats.map f }) })
+        rfl htg (set_getElem?_self _ hn) (fun i hi => set_getElem?_other _ _ _ _ hi) rfl rfl rfl rfl ?_ (Nat.le_refl _) ?_
+      · refine .rnd _ hk ⟨hp.kind, hp.acts, rfl, hp.rname, ?_, ?_, ?_, ?_⟩
+        · have : (r.cats.map f).map (·.uid) = r.cats.map (·.uid) := by
+            rw [List.map_map]; exact List.map_congr_left (fun a _ => hfu a)
+          show ((r.cats.map f).map (·.uid)).Nodup
+          rw [this]; exact hp.uids
+        · have : (r.cats.map f).map (·.name) = r.cats.map (·.name) := by
+            rw [List.map_map]; exact List.map_congr_left (fun a _ => hfn a)
+          show ((r.cats.map f).map (·.name)).Nodup
+          rw [this]; exact hp.names
+        · rw [hbk]
+          unfold bstep
+          rw [hbc]
+          simp only [hemp', Bool.false_eq_true, if_false, hanyT, if_true]
+          refine forall2_map_mem hp.rel ?_
+          intro a b ha hab
+          have h1 : a.uid = c0.uid ↔ a.name = nm0 := by
+            rw [← hc0n]; exact uid_iff_name r.cats hp.uids hp.names c0 a hc0m ha
+          have h2 := hab.2.eq_iff hk1 hk2
+          by_cases e : a.uid = c0.uid
+          · have e2 : b.1 = nm0 := h2.mp (h1.mp e)
+            have hfa : f a = { a with dest := d } := by rw [hf]; simp only [e, if_true]
+            rw [hfa]
+            simp only [e2, if_true]
+            exact ⟨hd.ext hext, by rw [← e2]; exact hab.2⟩
+          · have e2 : ¬ b.1 = nm0 := fun hh => e (h1.mpr (h2.mpr hh))
+            have hfa : f a = a := by rw [hf]; simp only [e, if_false]
+            rw [hfa]
+            simp only [e2, if_false]
+            exact ⟨hab.1.ext hext, hab.2⟩
+        · intro cat hcat k0 hk0
+          obtain ⟨a, ha, e⟩ := List.mem_map.mp hcat
+          simp only [List.length_map]
+          rw [← e, hfn] at hk0
+          exact hp.gen a ha k0 hk0
+      · intro r' hr' cat hcat
+        injection hr' with hr'; injection hr' with hr'; subst hr'
+        obtain ⟨a, ha, e⟩ := List.mem_map.mp hcat
+        obtain ⟨k0, hk0, e1⟩ := hfresh a ha
+        exact ⟨k0, hk0, by rw [← e, hfu, e1]⟩
+
 end
 /-! ### the single-meaning conditions, read off the reference's out-edges -/
 
@@ -643,6 +923,15 @@ theorem addExit_sim (rows : List CRow) (outF : List OutEdge) (g : Good rows outF
           intro h1; rw [h1] at hok
           simp only [Bool.false_or, Bool.and_eq_true, List.isEmpty_iff, toRCond] at hok; exact hok.1
         exact sw_test_sim rows M pd kg d tgt cond s st j n c h hj hn hc hnode hd htg r hk hp he' (fun _ => hnr) (fun _ => hnr) hvar hname hdist
+  | rnd r hk hp =>
+    rw [hk] at hok
+    have hke : n.kind ≠ NodeKind.enter := by rw [hp.kind]; intro hh; cases hh
+    have hkw : ¬ (n.kind = NodeKind.webhook ∨ n.kind = NodeKind.airtime) := by
+      rw [hp.kind]; rintro (hh | hh) <;> cases hh
+    have hks : n.kind ≠ NodeKind.switch := by rw [hp.kind]; intro hh; cases hh
+    refine ⟨fun hh => absurd hp.kind hh.2, fun _ => ⟨fun hh => absurd hh hke, fun _ => ⟨fun hh => absurd hh hkw, fun _ =>
+      ⟨fun hh => absurd hh.1 hks, fun _ => ?_⟩⟩⟩⟩
+    exact rand_edge_sim rows M pd kg d tgt cond s st j n c h hj hn hc hnode hd htg r hk hp hok
   | fix r sc hk hp =>
     have hkr : n.kind ≠ NodeKind.random := by
       rw [hp.kind]; rcases hk with h1 | h1 | h1 <;> rw [h1] <;> intro hh <;> cases hh
